@@ -508,3 +508,160 @@ def oracle_c16(world):
             V('wrong_setup_error', 'expected ERROR[%s] on stream 0, got %s' % (expect_code, got or 'nothing'),
               errors0[0]['seq'] if errors0 else None, expected=expect_code, **facts0)
     return out
+
+
+# =============================================================================================
+# C07 peer-script: protocol-legal peer frame sequences x local actions x one connection event
+# =============================================================================================
+
+def gen_peer_script(seed, opts=None):
+    rng = random.Random(seed ^ 0xC07C07)
+    endpoint_role = _pick(rng, [(3, 'client'), (2, 'server')])  # the REAL endpoint
+    kind = _pick(rng, [(2, 'rr'), (3, 'stream'), (4, 'channel')])
+    requester_real = rng.random() < 0.6
+    # who opens the stream: the real endpoint (requester_real) or the peer
+    if requester_real:
+        sid = 1 if endpoint_role == 'client' else 2
+    else:
+        sid = 2 if endpoint_role == 'client' else 1
+    grid = lambda: rng.randint(1, 12) * MS
+    plan = {'exec': 'peer', 'profile': 'peer-script', 'seed': seed, 'role': endpoint_role,
+            'framing': _pick(rng, [(3, 'tcp'), (1, 'ws')]), 'loop': {'eps': 0.0},
+            'endpoint': {'keepalive_ms': 10_000_000, 'fragment': _pick(rng, [(4, None), (1, 64)])},
+            'link': {'c2s': {'latency': _pick(rng, [(2, 0.001), (1, 0.0)]), 'seed': 1, 'chunk': _pick(rng, [(3, 'all'), (1, 3), (1, 'frame')])},
+                     's2c': {'latency': _pick(rng, [(2, 0.001), (1, 0.0)]), 'seed': 2, 'chunk': _pick(rng, [(3, 'all'), (1, 3), (1, 'frame')])}},
+            'auto': {'keepalive': 'echo'}, 'nontrivial': True, 'kind': kind, 'requester_real': requester_real}
+    script = []
+    if endpoint_role == 'server':
+        script.append({'at': 0.0, 'frame': {'t': 'SETUP', 'keepalive_ms': 10_000_000, 'lifetime_ms': 20_000_000}})
+    n_frames = rng.randint(0, 6)
+
+    def payload_spec(idx, nxt=True, complete=False):
+        d = app.content(0, 'r' if requester_real else 'c', idx, 'D', rng.randint(1, 40)) if nxt else b''
+        return {'t': 'PAYLOAD', 'sid': sid, 'data': d.hex(), 'next': nxt, 'complete': complete}
+
+    frames = []
+    idx = 0
+    if requester_real:
+        # the peer plays responder
+        terminal_sent = False
+        for _ in range(n_frames):
+            if kind == 'rr':
+                if terminal_sent:
+                    break
+                tok = _pick(rng, [(3, 'next_complete'), (2, 'next'), (1, 'complete'), (2, 'error')])
+            elif kind == 'stream':
+                if terminal_sent:
+                    break
+                tok = _pick(rng, [(4, 'next'), (1, 'next_complete'), (1, 'complete'), (1, 'error')])
+            else:
+                tok = _pick(rng, [(4, 'next'), (1, 'next_complete'), (1, 'complete'), (1, 'error'), (2, 'request_n'), (1, 'cancel')])
+                if terminal_sent and tok in ('next', 'next_complete', 'complete', 'error'):
+                    tok = 'request_n'
+            if tok == 'next':
+                frames.append(payload_spec(idx))
+                idx += 1
+                if kind == 'rr':
+                    terminal_sent = True
+            elif tok == 'next_complete':
+                frames.append(payload_spec(idx, True, True))
+                idx += 1
+                terminal_sent = True
+            elif tok == 'complete':
+                frames.append(payload_spec(idx, False, True))
+                terminal_sent = True
+            elif tok == 'error':
+                frames.append({'t': 'ERROR', 'sid': sid, 'code': 'APPLICATION_ERROR', 'data': b'peer-error'.hex()})
+                terminal_sent = True
+            elif tok == 'request_n':
+                frames.append({'t': 'REQUEST_N', 'sid': sid, 'n': rng.randint(1, 5)})
+            elif tok == 'cancel':
+                frames.append({'t': 'CANCEL', 'sid': sid})
+        ia = {'id': 0, 'kind': kind, 'by': endpoint_role, 'at': 0.0, 'req': {'dlen': rng.randint(8, 80), 'mlen': None}}
+        if kind in ('stream', 'channel'):
+            ia['sub'] = {'initial_n': _pick(rng, [(1, 1), (1, 2), (1, 0x7FFFFFFF)]), 'refill': _pick(rng, [(1, [1]), (1, [0x7FFFFFFF])])}
+            if rng.random() < 0.3:
+                ia['sub']['cancel_after'] = rng.randint(1, 3)
+            elif rng.random() < 0.3:
+                ia['sub']['cancel_at'] = grid()
+                ia['sub']['cancel_hops'] = rng.randint(0, 3)
+        if kind == 'rr' and rng.random() < 0.4:
+            ia['cancel'] = {'at': grid(), 'hops': rng.randint(0, 3)}
+        if kind == 'channel':
+            ia['pub'] = _pick(rng, [(1, None), (3, {'src': _pick(rng, [(2, 'manual'), (1, 'gen'), (1, 'agen')]), 'count': rng.randint(0, 4),
+                                                      'lens': [[rng.randint(1, 30), None]], 'end': _pick(rng, [(1, 'flag'), (1, 'separate')]),
+                                                      'start_idx': 1, **({'error_at': rng.randint(0, 3)} if rng.random() < 0.25 else {})})])
+        plan['interactions'] = [ia]
+        t0 = 2 * MS
+    else:
+        # the peer plays requester: request frame first, then legal requester frames
+        t_type = {'rr': 'REQUEST_RESPONSE', 'stream': 'REQUEST_STREAM', 'channel': 'REQUEST_CHANNEL'}[kind]
+        req_complete = kind == 'channel' and rng.random() < 0.3
+        script.append({'at': 1 * MS, 'frame': {'t': t_type, 'sid': sid, 'n': rng.randint(1, 4), 'complete': req_complete,
+                                               'data': app.content(0, 'q', 0, 'D', 20).hex()}})
+        done_sending = req_complete
+        cancelled = False
+        idx = 1
+        for _ in range(n_frames):
+            if cancelled:
+                break
+            opts_ = [(3, 'request_n'), (1, 'cancel')] if kind != 'rr' else [(1, 'cancel')]
+            if kind == 'channel' and not done_sending:
+                opts_ += [(3, 'next'), (1, 'next_complete'), (1, 'complete'), (1, 'error')]
+            tok = _pick(rng, opts_)
+            if tok == 'request_n':
+                frames.append({'t': 'REQUEST_N', 'sid': sid, 'n': rng.randint(1, 5)})
+            elif tok == 'cancel':
+                frames.append({'t': 'CANCEL', 'sid': sid})
+                cancelled = True
+            elif tok == 'next':
+                frames.append(payload_spec(idx))
+                idx += 1
+            elif tok == 'next_complete':
+                frames.append(payload_spec(idx, True, True))
+                idx += 1
+                done_sending = True
+            elif tok == 'complete':
+                frames.append(payload_spec(idx, False, True))
+                done_sending = True
+            elif tok == 'error':
+                frames.append({'t': 'ERROR', 'sid': sid, 'code': 'APPLICATION_ERROR', 'data': b'peer-error'.hex()})
+                done_sending = True
+                cancelled = True
+        ia = {'id': 0, 'kind': kind, 'by': 'peer', 'sid': sid}
+        if kind == 'rr':
+            ia['resp'] = {'mode': _pick(rng, [(2, 'now'), (2, 'delay'), (1, 'never'), (1, 'fail'), (1, 'raise')]),
+                          'delay': grid(), 'dlen': rng.randint(1, 60), 'mlen': None}
+        else:
+            ia['resp'] = {'src': _pick(rng, [(2, 'manual'), (1, 'gen'), (1, 'agen')]), 'count': rng.randint(0, 5),
+                          'lens': [[rng.randint(1, 30), None]], 'end': _pick(rng, [(1, 'flag'), (1, 'separate')])}
+            if rng.random() < 0.2:
+                ia['resp']['error_at'] = rng.randint(0, 3)
+            if rng.random() < 0.3:
+                ia['resp']['pacing'] = MS
+            if kind == 'channel':
+                if rng.random() < 0.15:
+                    ia['resp'].pop('src')
+                ia['resp']['sub'] = _pick(rng, [(1, None), (4, {'initial_n': rng.randint(1, 3), 'refill': [1],
+                                                                **({'cancel_after': rng.randint(1, 2)} if rng.random() < 0.25 else {})})])
+        plan['interactions'] = [ia]
+        t0 = 2 * MS
+    for f in frames:
+        script.append({'at': t0 + grid(), 'hops': rng.randint(0, 3), 'frame': f})
+    # keep the peer's frames in their generated (legal) order
+    times = sorted(s['at'] for s in script[len(script) - len(frames):])
+    for s, t in zip(script[len(script) - len(frames):], times):
+        s['at'] = t
+        s['hops'] = 0
+    if rng.random() < 0.5:
+        script.append({'at': t0 + grid(), 'hops': rng.randint(0, 3), 'conn': _pick(rng, [(2, 'eof'), (2, 'reset')])})
+    elif rng.random() < 0.4:
+        script.append({'at': t0 + grid(), 'hops': rng.randint(0, 3), 'act': {'what': 'close'}})
+    plan['script'] = sorted(script, key=lambda s: s['at'])
+    plan['horizon'] = 0.5
+    return plan
+
+
+def oracle_c07_peer(world):
+    from .oracles import Analysis, oracle_c07
+    return oracle_c07(Analysis(world))
